@@ -649,6 +649,57 @@ theorem c10_task_converges_up (P : RsP) (hfo : 10 ≤ P.fo)
     omega
   · exact absurd he hne
 
+/-- the upward stop also happens at the first callback at or above the target: the estimate passes the target by
+    no more than the travel of the carried time plus that callback interval (+1 unit) -/
+theorem c10_overshoot_up (P : RsP) (hfo : 10 ≤ P.fo)
+    (hcap : P.fo / 10 + 1 + 10 * P.fo * (taskMargin P + 1) ≤ 600000000) (s : RsT) (dt : Nat) (h : MovU s)
+    (htg100 : s.target < 100) (hbefore : s.pos - 100 > s.target * 100)
+    (hst : Stopped (rsTick P s dt)) :
+    (s.pos - (rsTick P s dt).pos) * (P.fo * 1000) ≤ 10000 * s.upT + 10000 * dt + 10000 := by
+  have t := mov_tick_up P hfo hcap s dt h htg100
+  simp only at t
+  rcases t.2 with ⟨_, _, hb, _⟩ | ⟨hm, _⟩
+  · exact hb
+  · exfalso
+    obtain ⟨_, _, hrel, _⟩ := hm
+    obtain ⟨hrel0, _⟩ := hst
+    omega
+
+/-- from rest, upward: the first callback after a task was added towards a target above the estimate starts the
+    motor upwards (unless a zero margin forbids driving a shutter that already reports 0 %) -/
+theorem task_start_up (P : RsP) (s : RsT) (dt : Nat)
+    (h0 : s.tstate = 1 ∧ s.rel = 0 ∧ s.pend = 0 ∧ 100 ≤ s.pos ∧ s.pos ≤ 10100 ∧ s.sinceStop ≥ startGate + s.lag)
+    (hb : s.pos - 100 > s.target * 100) (hg : ¬ (P.margin = 0 ∧ reportedPos s.pos = 0)) :
+    MovU (rsTick P s dt) ∧ (rsTick P s dt).pos = s.pos ∧ (rsTick P s dt).upT = 0 ∧
+    (rsTick P s dt).target = s.target := by
+  obtain ⟨hts, hrel, hpend, hlo, hhi, hss⟩ := h0
+  have hk : known s.pos = true := known_of s.pos ⟨hlo, hhi⟩
+  have hacc : account P s dt = { s with upT := 0, downT := 0, sinceStop := s.sinceStop + dt } := by
+    unfold account; rw [if_neg (by omega), if_neg (by omega)]
+  have htask : taskStep P (account P s dt) =
+      { s with upT := 0, downT := 0, sinceStop := s.sinceStop + dt, tstate := 2, dir := 2, rel := 2, pend := 0 } := by
+    rw [hacc]
+    have e3 : ¬ (s.sinceStop + dt < startGate + s.lag) := by omega
+    have e4 : ¬ (P.margin = 0 ∧ reportedPos s.pos = 0) := hg
+    have e6 : ¬ (s.pos - 100 ≤ s.target * 100) := by omega
+    simp [taskStep, hts, hk, relReq, guardOn, hrel, hb, e3, e4, e6]
+  unfold rsTick; rw [htask]
+  have hk2 := commStep_keep { s with upT := 0, downT := 0, sinceStop := s.sinceStop + dt, tstate := 2, dir := 2, rel := 2, pend := 0 } dt
+    (by simp) (by simp)
+  obtain ⟨a1, a2, a3, a4, a5, a6, a7, a8⟩ := hk2
+  exact ⟨⟨by rw [a2], by rw [a3], by rw [a1], by rw [a4], by rw [a5]; exact hlo, by rw [a5]; exact hhi⟩, by rw [a5], by rw [a8], by rw [a7]⟩
+
+/-- non-vacuity, upward: 20 s opening time, default margin; from 80 % a task to 43 % driven by 0.5 s callbacks stops
+    at the first callback at or above 43 % (42.5 %) and the motor is off -/
+example :
+    (rsRun { fo := 20000, fc := 20000, margin := 110, inMove := false } (addTask { pos := 8100 } 43)
+      [10000, 500000, 500000, 500000, 500000, 500000, 500000, 500000, 500000, 500000, 500000, 500000, 500000, 500000, 500000,
+       500000, 10000, 10000]).pos = 4350 ∧
+    (rsRun { fo := 20000, fc := 20000, margin := 110, inMove := false } (addTask { pos := 8100 } 43)
+      [10000, 500000, 500000, 500000, 500000, 500000, 500000, 500000, 500000, 500000, 500000, 500000, 500000, 500000, 500000,
+       500000, 10000, 10000]).rel = 0 := by
+  set_option maxRecDepth 8000 in decide
+
 /-- from rest: the first callback after a task was added towards a target below the estimate starts the motor
     downwards (unless a zero margin forbids driving a shutter that already reports 100 %) -/
 theorem task_start_down (P : RsP) (s : RsT) (dt : Nat)
